@@ -30,3 +30,6 @@ Definition opt_flatten {A} (l : list (option A)) : list A :=
 Definition value_inners (v : value) : list inner := match v with Val _ l => l end.
 Definition inner_simple (x : inner) : simple := match x with Inner s _ => s end.
 Definition inner_sufs (x : inner) : list suffix := match x with Inner _ l => l end.
+(** `let mut acc = init; for x in xs { acc = <body>?; }`: a fold whose body may return early (`?` / `return None`) *)
+Fixpoint foldM {A B} (f : B -> A -> M B) (l : list A) (b : B) : M B :=
+  match l with [] => ret b | x :: r => b' <- f b x ;; foldM f r b' end.
